@@ -2,7 +2,7 @@
    Model: Mvcc/Model.v ([step], [run cmds := fold_left step]); discipline and declarative
    specifications: Mvcc/Spec.v. Every statement is over ALL command sequences. *)
 From Verif Require Import Mvcc.Model Mvcc.Spec Mvcc.ProofsStore Mvcc.ProofsKey Mvcc.ProofsKstep Mvcc.ProofsShape
-     Mvcc.ProofsStep Mvcc.ProofsRead Mvcc.ProofsLate Mvcc.ProofsMarker Mvcc.ProofsIdem Mvcc.ProofsDef.
+     Mvcc.ProofsStep Mvcc.ProofsRead Mvcc.ProofsLate Mvcc.ProofsMarker Mvcc.ProofsIdem Mvcc.ProofsIdem2 Mvcc.ProofsDef.
 
 (* ---- induction carriers *)
 (* unconditional: keys ascending, write records of every key strictly descending by commit ts *)
@@ -35,18 +35,21 @@ Proof.
 Qed.
 Print Assumptions C12_idempotent.
 
-(* prewrite over the transaction's own lock, per key (any state): whatever an accepted prewrite left on a
-   key, or if the key already held the own prewrite lock, prewriting it again - any mutation of that
-   transaction - succeeds and writes nothing. (Partial: the lifting to whole multi-mutation requests,
-   including the Insert / CheckNotExists pre-check of repaired defect a799b8b, is checked on the code by
-   the "idempotent" oracle only.) *)
-Theorem C12_idempotent_prewrite_partial : forall ks m m' s p ttl mc ao,
-  (forall x, prewrite_key ks m s p ttl mc ao = KOk (Some x) -> prewrite_key x m' s p ttl mc ao = KOk None) /\
-  (prewrite_key ks m s p ttl mc ao = KOk None -> prewrite_key ks m' s p ttl mc ao = KOk None).
-Proof.
-  intros. split; [intros x H; eapply prewrite_key_idem; exact H|intros H; eapply prewrite_key_idem_none; exact H].
-Qed.
-Print Assumptions C12_idempotent_prewrite_partial.
+(* whole Prewrite requests (any number of mutations, duplicates allowed, optimistic or pessimistic, incl. the
+   Insert / CheckNotExists existence pre-check of repaired defect a799b8b) and whole PessimisticLock requests
+   (any number of keys, every mode: return values, check existence, lock-only-if-exists, ForceLock, no-wait):
+   ANY sequence (no discipline needed), same answer, state unchanged. Only restriction: start ts <> 2^64-1. *)
+Theorem C12_idempotent_prewrite : forall cmds ms primary s fu ttl mc ao, s <> max_ts ->
+  let c := Prewrite ms primary s fu ttl mc ao in
+  exists r2, step (fst (step (run cmds) c)) c = (fst (step (run cmds) c), r2)
+             /\ resp_status r2 = resp_status (snd (step (run cmds) c)).
+Proof. intros cmds ms primary s fu ttl mc ao Hs. apply prewrite_idem; [apply (run_sorted cmds)|exact Hs]. Qed.
+Print Assumptions C12_idempotent_prewrite.
+
+Theorem C12_idempotent_pessimistic_lock : forall cmds r,
+  step (fst (step (run cmds) (PessLock r))) (PessLock r) = (fst (step (run cmds) (PessLock r)), snd (step (run cmds) (PessLock r))).
+Proof. intros cmds r. destruct (pess_lock_idem (run cmds) r (proj1 (run_sorted cmds))) as [r2 [H E]]. subst r2. exact H. Qed.
+Print Assumptions C12_idempotent_pessimistic_lock.
 
 (* ---- a prewrite arriving after the transaction's commit or rollback record is rejected and changes
    nothing, as long as no GC with safe point >= start ran in between *)
@@ -113,6 +116,32 @@ Theorem C12_reverse_mirror : forall cmds s e limit t resolved,
   snd (step (run cmds) (ReverseScan s e limit t resolved)) = RPairs (spec_rscan (run cmds) s e limit t resolved).
 Proof. exact rscan_correct. Qed.
 Print Assumptions C12_reverse_mirror.
+
+(* ---- isolation level RC: Get / BatchGet / Scan / ReverseScan answer what the SI read answers on the store
+   with every lock removed (any state) *)
+Theorem C12_rc_ignores_locks : forall st q,
+  snd (step st (Rc q)) =
+  match q with
+  | QGet k t => get (unlocked st) k t []
+  | QBatchGet ks t => snd (step (unlocked st) (BatchGet ks t []))
+  | QScan s e limit t => snd (step (unlocked st) (Scan s e limit t []))
+  | QReverseScan s e limit t => snd (step (unlocked st) (ReverseScan s e limit t []))
+  end.
+Proof. exact rc_reads. Qed.
+Print Assumptions C12_rc_ignores_locks.
+
+(* ---- DeleteRange removes every row of the keys of [s,e) and nothing else *)
+Theorem C12_delete_range : forall cmds s e k,
+  get_ks (fst (step (run cmds) (DeleteRange s e))) k = if in_range s e k then empty_ks else get_ks (run cmds) k.
+Proof.
+  intros cmds s e k. destruct (run_sorted cmds) as [Hs _]. cbn [step fst]. rewrite map_range_get by exact Hs.
+  destruct (in_range s e k); cbn [andb]; [|reflexivity].
+  destruct (existsb (fun kv => fst kv =? k) (run cmds)) eqn:Ex; [reflexivity|].
+  apply get_ks_absent; [exact Hs|]. intros Hin. apply in_map_iff in Hin. destruct Hin as [kv [Ek Hin]].
+  assert (existsb (fun kv0 => fst kv0 =? k) (run cmds) = true); [|congruence].
+  apply existsb_exists. exists kv. split; [exact Hin|apply N.eqb_eq; exact Ek].
+Qed.
+Print Assumptions C12_delete_range.
 
 (* ---- GC *)
 Theorem C12_gc_refuses_lock : forall st s e sp,
